@@ -292,6 +292,8 @@ pub struct Ev<'a> {
     /// forks taken so far by this evaluator; beyond `fork_budget` evaluation stops (fail closed)
     /// values returned by calls of functions outside the crate (by last path segment), e.g. a parsed argument list
     pub ext_vals: std::collections::HashMap<String, Val>,
+    /// functions the index does not know (methods of impls nested in a function body), by `Type::name`
+    pub extra_fns: std::collections::HashMap<String, Rc<FnDef>>,
     pub forks: std::cell::Cell<usize>,
     pub calls: std::cell::Cell<usize>,
     /// functions whose bodies were evaluated (self-test: GENLINT_COVERAGE=<file> appends them on drop)
@@ -323,7 +325,7 @@ fn path_str(p: &syn::Path) -> Vec<String> {
 
 impl<'a> Ev<'a> {
     pub fn new(ix: &'a Index) -> Self {
-        Ev { ix, cur_file: Default::default(), unsupported: Default::default(), push_fns: vec![], stops: vec![], max_depth: 12, open_at_top: Default::default(), inner_unroll: None, stop_vals: Default::default(), assume_true_suffix: vec![], ext_vals: Default::default(), forks: Default::default(), calls: Default::default(), entered: Default::default(), trace: std::env::var("GENLINT_TRACE").is_ok(), fork_budget: std::env::var("GENLINT_FORK_BUDGET").ok().and_then(|s| s.parse().ok()).unwrap_or(60_000) }
+        Ev { ix, cur_file: Default::default(), unsupported: Default::default(), push_fns: vec![], stops: vec![], max_depth: 12, open_at_top: Default::default(), inner_unroll: None, stop_vals: Default::default(), assume_true_suffix: vec![], ext_vals: Default::default(), extra_fns: Default::default(), forks: Default::default(), calls: Default::default(), entered: Default::default(), trace: std::env::var("GENLINT_TRACE").is_ok(), fork_budget: std::env::var("GENLINT_FORK_BUDGET").ok().and_then(|s| s.parse().ok()).unwrap_or(60_000) }
     }
     fn site(&self, sp: proc_macro2::Span) -> String {
         format!("{}:{}", self.cur_file.borrow(), sp.start().line)
@@ -1994,6 +1996,10 @@ impl<'a> Ev<'a> {
                 };
                 // crate method?
                 if let Some(tn) = self.recv_ty_name(&s2, &recv) {
+                    if let Some(f) = self.extra_fns.get(&format!("{tn}::{name}")).cloned() {
+                        r.extend(self.call_fn(s2, &f, Some(recv.clone()), vs));
+                        continue;
+                    }
                     if let Some(f) = self.ix.get_fn(&format!("{tn}::{name}")) {
                         r.extend(self.call_fn(s2, &f, Some(recv.clone()), vs));
                         continue;
